@@ -153,7 +153,8 @@ class Case(object):
     self.t0 = time.time()
 
   def solve(self, qname, bad, assumptions=(), expect='unsat', timeout=60, witness=None,
-            sig=None, required=True, kind='main', replay=None, note=None, logic=None, robust=None, probe=False):
+            sig=None, required=True, kind='main', replay=None, note=None, logic=None, robust=None, probe=False,
+            inline_replay=None):
     """Ask the solver for a model of  assumptions AND ctx-assumptions AND bad.
 
     expect='unsat': property query (sat = candidate violation).
@@ -219,6 +220,13 @@ class Case(object):
       res['sig'] = sig(m) if callable(sig) else (sig or {})
       res['replay'] = replay
       self.last_model = m
+      if inline_replay is not None and not replay:
+        # the witness is run on the real code right here (the traced objects live in this worker)
+        try:
+          res['replay_result'] = inline_replay(m)
+        except Exception as e:  # pylint: disable=broad-except
+          res['replay_result'] = dict(reproduced=False, detail='inline replay raised %s: %s' % (type(e).__name__, str(e)[:200]))
+        res['replay'] = dict(fn='inline')
     self.results.append(res)
     return verdict
 
@@ -285,6 +293,40 @@ def poly_equal(a, b_):
     return lhs == rhs
   d = z3.simplify(Z(lhs) - Z(rhs), som=True, arith_lhs=True, hoist_mul=False, flat=True)
   return z3.is_rational_value(d) and d.numerator_as_long() == 0
+
+
+def model_np(m, arr, dtype=np.float64):
+  """symbolic array -> numpy array of model values"""
+  arr = np.asarray(arr, dtype=object)
+  out = np.empty(arr.shape, dtype=dtype)
+  for idx in np.ndindex(*arr.shape):
+    v = sym.subst_value(arr[idx], m)
+    out[idx] = float('nan') if v is None else float(v)
+  return out
+
+
+def compare_tf(m, sides, tol=1e-4):
+  """Inline replay for equality queries: each side is (Traced, symbolic args, symbolic var_values, pick) where pick maps the list
+  of TensorFlow outputs to a flat comparable array.  Runs the REAL traced functions with the witness values and compares."""
+  vals = []
+  for tr, args, vv, pick in sides:
+    np_args = []
+    for a, s_ in zip(args, tr.specs):
+      a = model_np(m, a)
+      np_args.append(a.astype(np.int64) if s_.dtype.is_integer else a)
+    vvn = {k: model_np(m, v) for k, v in (vv or {}).items()}
+    outs = tr.tf_run(*np_args, var_values=vvn)
+    vals.append(np.asarray(pick(outs), dtype=np.float64).reshape(-1))
+  ref = vals[0]
+  worst = 0.0
+  for v in vals[1:]:
+    if v.shape != ref.shape:
+      return dict(reproduced=True, detail=dict(shapes=[list(ref.shape), list(v.shape)]))
+    if not (np.all(np.isfinite(v)) and np.all(np.isfinite(ref))):
+      return dict(reproduced=True, detail=dict(non_finite=True))
+    worst = max(worst, float(np.max(np.abs(v - ref))) if v.size else 0.0)
+  scale = max(1.0, float(np.max(np.abs(ref))) if ref.size else 1.0)
+  return dict(reproduced=bool(worst > tol * scale), detail=dict(max_abs_diff=worst, a=vals[0].tolist()[:12], b=vals[-1].tolist()[:12]))
 
 
 def model_array(m, arr):
